@@ -4838,6 +4838,8 @@ def container_script_repr(container,imports,prefix,settings):
         d1,d2='(',')'
     else:
         raise NotImplementedError
+    if isinstance(container,tuple) and len(result)==1:
+        result.append('') # the trailing comma that makes it a tuple
     rep=d1+','.join(result)+d2
 
     # no imports to add for built-in types
